@@ -368,6 +368,26 @@ class OpsMixin(object):
                     return FuncV(fi)
                 if fi.is_classmethod:
                     return FuncV(fi, selfv=ClassV(ci))
+                other = [d for d in fi.node.decorator_list
+                         if ast.unparse(d) not in ("property", "staticmethod", "classmethod", "abstractmethod", "abc.abstractmethod")
+                         and not ast.unparse(d).endswith((".setter", ".getter", ".deleter"))]
+                if other:
+                    # a decorated method: the decorator is applied once, when the class body runs; the object it returns lives
+                    # on the class and is shared by all instances (a cache decorator therefore has one table for all of them)
+                    store = self.__dict__.setdefault("_decorated_methods", {})
+                    dk = (c.fq, attr)
+                    if dk not in store:
+                        denv = Env(module=c.module, label=c.fq)
+                        fv = FuncV(fi)
+                        for d in reversed(other):
+                            fv = self.call(self.eval(d, denv), [fv], {}, fi.node, denv)
+                        store[dk] = fv
+                    dec = store[dk]
+                    if inst is None:
+                        return dec
+                    if isinstance(dec, FuncV) and dec.selfv is None:
+                        return FuncV(dec.fi, dec.closure, inst)
+                    return PyObjV(PartialV(dec, [inst], {})).as_callable()
                 if inst is not None:
                     return FuncV(fi, selfv=inst)
                 return FuncV(fi)
